@@ -33,15 +33,15 @@ func (c Case) key() string {
 }
 
 type sim struct {
-	r    *vk.Run
-	c    Case
-	ctx  context.Context
-	n    *world.Node
-	seq  *world.SeqDouble
-	da   *world.DADouble
-	t    time.Time
-	k    int
-	viol []string
+	r                  *vk.Run
+	c                  Case
+	ctx                context.Context
+	n                  *world.Node
+	seq                *world.SeqDouble
+	da                 *world.DADouble
+	t                  time.Time
+	k                  int
+	viol               []string
 	declined, produced int
 }
 
@@ -103,7 +103,7 @@ func (s *sim) produceStep() {
 		s.produced++
 		s.k++
 		s.r.Hit("produced")
-		if (wh >= s.c.Limit || wd >= s.c.Limit) {
+		if wh >= s.c.Limit || wd >= s.c.Limit {
 			s.r.Count("produced_although_at_limit", 1)
 			s.viol = append(s.viol, fmt.Sprintf("block %d produced although %d headers / %d data items were already waiting (limit %d): the bound is not respected", after, wh, wd, s.c.Limit))
 		}
